@@ -175,6 +175,37 @@ impl<'a> DagGen<'a> {
     }
 
     pub fn build(mut self) -> Model {
+        self.fill();
+        self.model
+    }
+
+    /// A merge command one of whose parents is an ancestor of the other (what a buggy or
+    /// hostile peer can send; `add_commands` accepts it), in either parent order, followed by a
+    /// short chain, plus a concurrent chain from the ancestor parent so that later braids have
+    /// that ancestor as their last common ancestor. Returns false if nothing was added.
+    pub fn degenerate_merge_gadget(&mut self) -> bool {
+        let n = self.model.len();
+        let b = self.rng.usize(n);
+        let anc: Vec<usize> = self.model.ancestors(b).iter().filter(|&v| v != b).collect();
+        if anc.is_empty() {
+            return false;
+        }
+        let a = *self.rng.pick(&anc);
+        let id = merge_id(&self.model.node(a).id, &self.model.node(b).id);
+        if self.model.idx(&id).is_some() {
+            return false;
+        }
+        let (l, r) = if self.rng.bool() { (a, b) } else { (b, a) };
+        let m = self.model.push(Node { id, par: Par::Merge(l, r), prio: Prio::Merge, script: Script { tag: u32::MAX, quiet: true, ops: vec![] }, max_cut: 0 });
+        let k = self.rng.urange(0, 2);
+        self.chain(m, k);
+        let k = self.rng.urange(1, 3);
+        self.chain(a, k);
+        true
+    }
+
+    /// Grow the DAG to `cfg.n` commands in the configured shape.
+    pub fn fill(&mut self) {
         let n = self.cfg.n;
         match self.cfg.shape {
             Shape::Random => {
@@ -313,7 +344,6 @@ impl<'a> DagGen<'a> {
                 }
             }
         }
-        self.model
     }
 }
 
